@@ -167,8 +167,36 @@ class MatchesSetwise:
     def __init__(self, *matchers):
         self.matchers = matchers
 
+    def _assignment_exists(self, observed):
+        """Can every value be paired with a distinct matcher that matches it?"""
+        matchers = list(self.matchers)
+        if len(observed) != len(matchers):
+            return False
+        accepts = [
+            [i for i, matcher in enumerate(matchers) if matcher.match(value) is None]
+            for value in observed
+        ]
+        value_of = {}
+
+        def place(v, seen):
+            # Augmenting path: give value v a matcher, moving others if needed.
+            for i in accepts[v]:
+                if i not in seen:
+                    seen.add(i)
+                    if i not in value_of or place(value_of[i], seen):
+                        value_of[i] = v
+                        return True
+            return False
+
+        return all(place(v, set()) for v in range(len(observed)))
+
     def match(self, observed):
-        remaining_matchers = set(self.matchers)
+        observed = list(observed)
+        # Greedy pairing (below) can fail although a complete pairing exists,
+        # and used to depend on set iteration order: decide the verdict first.
+        if self._assignment_exists(observed):
+            return None
+        remaining_matchers = list(self.matchers)
         not_matched = []
         for value in observed:
             for matcher in remaining_matchers:
@@ -178,7 +206,6 @@ class MatchesSetwise:
             else:
                 not_matched.append(value)
         if not_matched or remaining_matchers:
-            remaining_matchers = list(remaining_matchers)
             # There are various cases that all should be reported somewhat
             # differently.
 
